@@ -5,6 +5,7 @@ import (
 	"go/constant"
 	"go/token"
 	"go/types"
+	"os"
 	"strings"
 
 	"golang.org/x/tools/go/ssa"
@@ -940,6 +941,13 @@ func (x *explorer) eval(st *state, fr *frame, v ssa.Value) *Term {
 				}
 			}
 		}
+		// slicing an array held in a local (digest := sha256.Sum256(b); digest[:]): the slice is of
+		// the array value memory holds for that local
+		if a.Op == "cell" {
+			if bv, ok := x.known(st, a); ok && bv != nil && bv.Op != "const" {
+				a = bv
+			}
+		}
 		args := []*Term{a}
 		for _, b := range []ssa.Value{v.Low, v.High} {
 			if b == nil {
@@ -1042,6 +1050,15 @@ func (x *explorer) load(st *state, addr *Term, typ types.Type) *Term {
 	}
 	switch addr.Op {
 	case "gaddr":
+		// a package-level []string that is initialised once with constants and never written again
+		// (a named whitelist) is its literal
+		if vals, ok := x.P.constStringSlice(addr.Name); ok {
+			var as []*Term
+			for _, v := range vals {
+				as = append(as, tStr(v))
+			}
+			return &Term{Op: "lit", Args: as, Type: typ}
+		}
 		return &Term{Op: "global", Name: addr.Name, Type: typ}
 	case "addr":
 		base := addr.Args[0]
@@ -1445,6 +1462,30 @@ func funcShortName(fn *ssa.Function) string {
 	return fn.Name()
 }
 
+// onStackFor is the recursion guard of inlining. A higher-order helper
+// (withLock(mu, func(){ withLock(mu2, f) })) is legitimately re-entered with a
+// different function argument: the nesting is bounded by the nesting of the
+// closures in the source, so three live frames are allowed for functions that
+// take a function-typed parameter; every other function is inlined once.
+func (x *explorer) onStackFor(st *state, fn *ssa.Function) bool {
+	higher := false
+	for _, p := range fn.Params {
+		if _, ok := p.Type().Underlying().(*types.Signature); ok {
+			higher = true
+		}
+	}
+	if !higher {
+		return x.onStack(st, fn)
+	}
+	n := 0
+	for _, f := range st.stack {
+		if f.fn == fn {
+			n++
+		}
+	}
+	return n >= 3
+}
+
 func (x *explorer) onStack(st *state, fn *ssa.Function) bool {
 	for _, f := range st.stack {
 		if f.fn == fn {
@@ -1529,13 +1570,13 @@ func (x *explorer) doCall(st *state, fr *frame, c *ssa.CallCommon, bind *ssa.Cal
 		if oo, ok := static.Object().(*types.Func); ok {
 			o = oo
 		}
-		pureStatic = isPureCall(fnPkgPath(static), funcShortName(static), o, static.Signature)
+		pureStatic = isPureCall(fnPkgPath(static), funcShortName(static), o, static.Signature) || x.P.inferredPure(static)
 	}
 	isBound := strings.HasPrefix(static.Synthetic, "bound method wrapper") || strings.HasPrefix(static.Synthetic, "wrapper for")
 	if isBound {
 		pureStatic = false
 	}
-	if !pureStatic && len(static.Blocks) > 0 && (isBound || (isSubjectPkg(fnPkgPath(static)) && (x.cfg.Inline(static) || x.cfg.ForceInline != nil && x.cfg.ForceInline(static) || x.argDriven(static, cargs)))) && fr.depth < x.cfg.MaxDepth+2 && (isBound || fr.depth < x.cfg.MaxDepth) && !x.onStack(st, static) {
+	if !pureStatic && len(static.Blocks) > 0 && (isBound || (isSubjectPkg(fnPkgPath(static)) && (x.cfg.Inline(static) || x.cfg.ForceInline != nil && x.cfg.ForceInline(static) || x.argDriven(static, cargs)))) && fr.depth < x.cfg.MaxDepth+2 && (isBound || fr.depth < x.cfg.MaxDepth) && !x.onStackFor(st, static) {
 		nf := x.newFrame(st, static, args, free, fr.depth+1)
 		nf.inDefer = fr.inDefer || d != nil
 		if bind != nil {
@@ -1625,7 +1666,7 @@ func (x *explorer) opaque(st *state, fr *frame, name string, obj *types.Func, st
 	if recv != nil {
 		all = append([]*Term{recv}, args...)
 	}
-	if isPureCall(pkg, name, obj, sig) {
+	if isPureCall(pkg, name, obj, sig) || static != nil && x.P.inferredPure(static) && (x.cfg.ForceInline == nil || !x.cfg.ForceInline(static)) {
 		t := &Term{Op: "call", Name: name, Args: all, Callee: obj, Site: instr, Clock: len(st.events)}
 		if sig != nil && sig.Results().Len() == 1 {
 			t.Type = sig.Results().At(0).Type()
@@ -1878,4 +1919,165 @@ func (x *explorer) storedFields(fn *ssa.Function) map[string]bool {
 	}
 	rec(fn, 0)
 	return out
+}
+
+// inferredPure: a data-transforming loop helper of the module — it returns
+// slices only (no bool, error, scalar or function result, so no decision is
+// hidden in it), contains a loop, and has no effect: it stores only into its own fresh
+// allocations, updates only maps it made itself, and calls only builtins and
+// pure functions. Such a helper (appendUnique, uniqueArguments, mergeScopes …)
+// is modelled as a structural term of its arguments instead of being unrolled
+// at every call site, which is what keeps a function with five sequential
+// "for … { x = appendUnique(x, v) }" loops within the path bound.
+func (P *Program) inferredPure(fn *ssa.Function) bool {
+	if os.Getenv("FL_NOINFER") != "" {
+		return false
+	}
+	if P.purityCache == nil {
+		P.purityCache = map[*ssa.Function]int{}
+	}
+	switch P.purityCache[fn] {
+	case 1:
+		return true
+	case 2, 3:
+		return false // impure, or in progress (recursion)
+	}
+	P.purityCache[fn] = 3
+	ok := P.inferPure(fn)
+	if ok {
+		P.purityCache[fn] = 1
+	} else {
+		P.purityCache[fn] = 2
+	}
+	return ok
+}
+
+func (P *Program) inferPure(fn *ssa.Function) bool {
+	if len(fn.Blocks) == 0 || !isSubjectPkg(fnPkgPath(fn)) || fn.Signature.Results().Len() == 0 || len(fn.AnonFuncs) > 0 {
+		return false
+	}
+	// only list-valued helpers: a slice result is data; a scalar (enum, string, duration) may encode a
+	// decision some rule needs to see being taken
+	for i := 0; i < fn.Signature.Results().Len(); i++ {
+		if _, isSlice := fn.Signature.Results().At(i).Type().Underlying().(*types.Slice); !isSlice {
+			return false
+		}
+	}
+	loop := false
+	for _, b := range fn.Blocks {
+		for _, s := range b.Succs {
+			if s.Index <= b.Index {
+				loop = true
+			}
+		}
+	}
+	if !loop {
+		return false
+	}
+	local := func(v ssa.Value) bool {
+		for i := 0; i < 8; i++ {
+			switch x := v.(type) {
+			case *ssa.Alloc, *ssa.MakeMap, *ssa.MakeSlice:
+				return true
+			case *ssa.FieldAddr:
+				v = x.X
+			case *ssa.IndexAddr:
+				v = x.X
+			case *ssa.Slice:
+				v = x.X
+			case *ssa.Phi:
+				return false
+			default:
+				return false
+			}
+		}
+		return false
+	}
+	for _, b := range fn.Blocks {
+		for _, ins := range b.Instrs {
+			switch x := ins.(type) {
+			case *ssa.Store:
+				if !local(x.Addr) {
+					return false
+				}
+			case *ssa.MapUpdate:
+				if !local(x.Map) {
+					return false
+				}
+			case *ssa.Go, *ssa.Defer, *ssa.Send, *ssa.Panic, *ssa.RunDefers, *ssa.Select:
+				return false
+			case ssa.CallInstruction:
+				cc := x.Common()
+				if cc.IsInvoke() {
+					if !isPureCall(cc.Method.Pkg().Path(), "."+cc.Method.Name(), cc.Method, cc.Signature()) {
+						return false
+					}
+					continue
+				}
+				switch v := cc.Value.(type) {
+				case *ssa.Builtin:
+					if v.Name() == "copy" || v.Name() == "delete" || v.Name() == "close" || v.Name() == "panic" || v.Name() == "print" || v.Name() == "println" {
+						return false
+					}
+				case *ssa.Function:
+					var o *types.Func
+					if oo, ok := v.Object().(*types.Func); ok {
+						o = oo
+					}
+					if !isPureCall(fnPkgPath(v), funcShortName(v), o, v.Signature) && !P.inferredPure(v) {
+						return false
+					}
+				default:
+					return false
+				}
+			}
+		}
+	}
+	return true
+}
+
+// constStringSlice: the elements of a package-level []string variable of the
+// module whose only store is its initialisation with string constants and whose
+// elements are never assigned (no store through an index of a load of it, no
+// append result stored back). Cached per program.
+func (P *Program) constStringSlice(name string) ([]string, bool) {
+	if P.constSlices == nil {
+		P.constSlices = map[string][]string{}
+		P.constSliceNo = map[string]bool{}
+		// writers outside init
+		for _, fn := range P.AllFuncs {
+			isInit := fn.Name() == "init" || strings.HasPrefix(fn.Name(), "init#")
+			for _, b := range fn.Blocks {
+				for _, ins := range b.Instrs {
+					st, ok := ins.(*ssa.Store)
+					if !ok {
+						continue
+					}
+					if g, ok := st.Addr.(*ssa.Global); ok && !isInit {
+						P.constSliceNo[globalName(g)] = true
+					}
+					if ia, ok := st.Addr.(*ssa.IndexAddr); ok {
+						if u, ok := ia.X.(*ssa.UnOp); ok {
+							if g, ok := u.X.(*ssa.Global); ok {
+								P.constSliceNo[globalName(g)] = true
+							}
+						}
+					}
+				}
+			}
+		}
+	}
+	if P.constSliceNo[name] {
+		return nil, false
+	}
+	if v, ok := P.constSlices[name]; ok {
+		return v, v != nil
+	}
+	v, ok := P.GlobalStringSlice(name)
+	if !ok || len(v) == 0 {
+		P.constSlices[name] = nil
+		return nil, false
+	}
+	P.constSlices[name] = v
+	return v, true
 }
